@@ -2873,6 +2873,10 @@ class LinearOperator(object):
 
         # Pad the index with empty indices
         index = index + tuple(_noop_index for _ in range(ndimension - len(index)))
+        if len(index) > ndimension:
+            raise IndexError(
+                "too many indices for LinearOperator of dimension {}: received index {}.".format(ndimension, index)
+            )
 
         # Integer and tensor indices must lie in [-size, size), as for torch.Tensor indexing
         # (several _getitem/_get_indices implementations would otherwise return empty or wrapped-around results)
